@@ -17,6 +17,15 @@ CHECKS = {
  "C04": dict(engine="isa", category="model_checking", technique="same enumeration as C01; each program is compiled with Cranelift and run in a forked child; oracle = the interpreter wherever the reference machine says the result is defined",
    text=ISA_TEXT + "Each program is compiled with Cranelift once per group and executed for all inputs in a forked child; result and defined bytes must equal the interpreter's.",
    design_ref="DESIGN.md section 4 C04"),
+ "C05": dict(engine="bytes", category="model_checking", technique="small-scope exhaustive enumeration of byte strings (all 256 opcodes x register/offset/immediate classes in every position x context alphabet, n <= 3/4 instructions); every string the real verifier accepts is interpreted under an instruction budget on three VM kinds / helper sets",
+   text="States = byte strings of the bounded space (2x10^8 in the quick tier); for every accepted one the interpreter is run (budget hook) under catch_unwind on NoData/Raw/Mbuff VMs with 0, 1 and 3 helpers: it must return a value, an error or exhaust the budget - never panic. The failure modes named in the property (unreachable!, get_insn out of range, register index >= 11, arithmetic overflow) are all panics in this build (overflow-checks on).",
+   design_ref="DESIGN.md section 4 C05"),
+ "C06": dict(engine="bytes", category="model_checking", technique="small-scope exhaustive enumeration of byte strings against a reference predicate transcribed clause by clause from the property; both verdicts compared on every string",
+   text="Every length 0..33, every (opcode, register byte) pair, and for n <= 3 (4 thorough) instructions every focus position x 256 opcodes x dst/src/offset/immediate classes x a 7-element context alphabet (exit, ja, mov, lddw half, zero slot, call, jeq): new() and set_program() must accept exactly when mc/src/refverif.rs says well-formed, and never panic.",
+   design_ref="DESIGN.md section 4 C06"),
+ "C12": dict(engine="bytes", category="model_checking", technique="same byte-string space as C06 restricted to verifier-accepted strings, compiled twice by the JIT (all) and Cranelift (one opcode per translation arm) under catch_unwind; plus every program length 1..3000 of 8 instruction kinds, fix-up tables up to 2000 jumps and 65535..65537 (10^6) instructions",
+   text="jit_compile / cranelift_compile must return Ok or Err (a panic, including the emit_bytes! bounds assert that turns a buffer overrun into a panic, is a violation); two compilations must agree on Ok/Err and, where the reference machine proves the run defined, on the result (executed in a forked child).",
+   design_ref="DESIGN.md section 4 C12"),
  "C13": dict(engine="text", category="exploration", technique="exhaustive enumeration of mnemonics x operand shapes x boundary value/spelling alphabets against an independent encoder",
    text="Every mnemonic of the syntax x every operand shape (<=3 operands, plus 4) x boundary registers/offsets/immediates x number spellings and whitespace variants, plus every ordered pair of mnemonics and reduced triples, is assembled and compared byte-for-byte (or Err-for-Err) with an independent encoder written from the property text. Complete for the stated alphabets; values between boundaries are not covered.",
    design_ref="DESIGN.md section 4 C13"),
@@ -35,6 +44,7 @@ CHECKS = {
 }
 
 ENGINES = {
+ "bytes": ("mc/src/byteseng.rs", "kind A: small-scope byte-string explorer with reference verifier predicate (mc/src/refverif.rs)"),
  "isa": ("mc/src/isaeng.rs", "kind A: transition-conformance of a reference machine (mc/src/refmodel.rs): bounded exhaustive enumeration of (pre-state x instruction) transitions, each replayed on interpreter / JIT / Cranelift"),
  "text": ("mc/src/text.rs", "kind D: exhaustive input-space enumeration of pure functions (assembler, disassembler, encoders, builder) against independent models in mc/src/asmref.rs and mc/src/isa.rs"),
 }
